@@ -5,8 +5,9 @@ CONSTANTS
   Initials <- Init3
   Replies <- McReplies
   Mins <- MinsAll
-  ValClasses = {0, 1, 2, 3}
+  ValClasses = {0, 1, 3}
   VModes = {1, 2}
+  Dists <- TieDists5
   Orig = FALSE
-INVARIANTS AtMostOnce NoPanic Terminates ClosestTruthful ValueFromContacted AcceptedDistinct ErrIffBelowMin QueueSorted
+INVARIANTS AtMostOnce NoPanic Terminates ClosestTruthful ValueFromContacted AcceptedDistinct ErrIffBelowMin
 CHECK_DEADLOCK TRUE
